@@ -181,7 +181,8 @@ func (env *evalEnv) eval(e Expr) cval {
 		case b.sort == "Slice":
 			es, et := env.elemOf(b.typ)
 			mem := env.heapGet("Mem."+sanitize(es), "(Array Int "+arrOf(es)+")")
-			return cval{t: fmt.Sprintf("(select (select %s (sptr %s)) (+ (soff %s) %s))", mem, b.t, b.t, i.t), sort: es, typ: et}
+			arr := fx.winOf(es, fmt.Sprintf("(select %s (sptr %s))", mem, b.t), "(soff "+b.t+")")
+			return cval{t: "(select " + arr + " " + i.t + ")", sort: es, typ: et}
 		case b.sort == "Str":
 			return cval{t: "(strat " + b.t + " " + i.t + ")", sort: "Int", typ: types.Typ[types.Uint8]}
 		case strings.HasPrefix(b.sort, "(Array "):
@@ -199,7 +200,7 @@ func (env *evalEnv) eval(e Expr) cval {
 			vars[v.Name] = cval{t: name, sort: srt, typ: typ}
 			binders = append(binders, fmt.Sprintf("(%s %s)", name, srt))
 			if typ != nil {
-				if lo, hi, _, ok := intRange(typ); ok && v.Type != "Int" {
+				if lo, hi, _, ok := intRange(typ); ok && v.Type != "Int" && v.Type != "int" && v.Type != "int64" {
 					ranges = append(ranges, fmt.Sprintf("(<= %s %s) (<= %s %s)", lo, name, name, hi))
 				}
 			}
@@ -595,6 +596,25 @@ func (env *evalEnv) evalCall(x *ECall) cval {
 		}
 		k := env.eval(x.Args[1])
 		return cval{t: "(select " + it.visited + " " + k.t + ")", sort: "Bool"}
+	case "called":
+		// called("call.Recv#1"): that call was executed on this path
+		argn(1)
+		_, ok := env.st.callRes[typeArg(x.Args[0])]
+		return cval{t: strconv.FormatBool(ok), sort: "Bool"}
+	case "callres":
+		// callres("call.Recv#1", i, "Type"): i-th result of that call on this path
+		argn(3)
+		rs, ok := env.st.callRes[typeArg(x.Args[0])]
+		srt, typ := env.resolveType(typeArg(x.Args[2]))
+		if !ok {
+			// not executed on this path: an arbitrary value (guard with called())
+			return cval{t: fx.freshConst("nocall", srt), sort: srt, typ: typ}
+		}
+		i, _ := strconv.Atoi(x.Args[1].String())
+		if i >= len(rs) {
+			evalFail("callres index out of range")
+		}
+		return cval{t: rs[i], sort: srt, typ: typ}
 	case "ptr":
 		argn(1)
 		v := env.eval(x.Args[0])
@@ -706,7 +726,11 @@ func (env *evalEnv) loadLV(lv *LValue) Term {
 		return "(select " + h + " " + lv.idx + ")"
 	case lvElem:
 		h := env.heapGet(lv.heap, lv.heapSort)
-		return "(select (select " + h + " " + lv.idx + ") " + lv.idx2 + ")"
+		arr := "(select " + h + " " + lv.idx + ")"
+		if lv.off != "" && lv.off != "0" {
+			arr = env.fx.winOf(lv.elemSort, arr, lv.off)
+		}
+		return "(select " + arr + " " + lv.idx2 + ")"
 	case lvSub:
 		p := env.loadLV(lv.parent)
 		return "(" + lv.si.fields[lv.fieldIdx] + " " + p + ")"
